@@ -290,15 +290,12 @@ func (m *Model) deleteMode(id string, opts ...resource.WriteOption) error {
 		return ErrDeleteActiveMode
 	}
 
-	msg, err := m.modes.Delete(id, opts...)
-	if err != nil {
-		return err
-	}
-	if msg == nil {
+	_, err := m.modes.Delete(id, opts...)
+	if status.Code(err) == codes.NotFound {
 		return ErrModeNotFound
 	}
-
-	return nil
+	// a nil error with nothing deleted means the caller allowed the mode to be missing
+	return err
 }
 
 // UpdateMode will modify one of the modes stored in this device.
